@@ -97,6 +97,7 @@ namespace sim
     pthread_t real_thread = 0;
     bool via_seam = false;       // created through interposed pthread_create
     bool joined_by_core = false;
+    bool seam_joined = false;
     std::function<void()> body;
     void* (*start)(void*) = nullptr;
     void* start_arg = nullptr;
@@ -419,9 +420,15 @@ namespace sim
   const VClock& final_vclock(int id) { return W->tasks[size_t(id)]->vc; }
   int task_of_pthread(unsigned long h)
   {
-    for(auto& t : W->tasks) if(t->via_seam && (unsigned long)t->real_thread == h) return t->id;
+    // pthread_t values are reused by glibc after a join: newest first, joined ones never match again
+    for(size_t i = W->tasks.size(); i-- > 0;)
+    {
+      Task* t = W->tasks[i].get();
+      if(t->via_seam && !t->seam_joined && (unsigned long)t->real_thread == h) return t->id;
+    }
     return -1;
   }
+  void mark_joined(int id) { W->tasks[size_t(id)]->seam_joined = true; }
   void set_blocked_desc(const char* d) { if(t_task) t_task->blocked_on = d; }
 
   // ------------------------------------------------------------------------------------------------
@@ -682,7 +689,7 @@ namespace sim
     sem_init(&W->controller_sem, 0, 0);
     W->st.hash = 1469598103934665603ull;
     W->st.sched_hash = 1469598103934665603ull;
-    alarm(600);
+    { const char* wd = getenv("SIM_WATCHDOG_S"); alarm(wd ? unsigned(atoi(wd)) : 120u); }
     // per-run search strategy (swarm)
     W->clean = cfg_int("clean", 0, 2) == 0; // a third of the runs: every fault kind off
     W->strategy = int(cfg_weighted("strategy", {4, 2, 2, 2}));
